@@ -168,6 +168,29 @@ def run_property(pid, tier="quick", replay=None, repo_root=None, write_evidence=
                     raise
                 except Exception as e:
                     results.append(unrecognised("STATE", q, "mutable defaults are not written into", "rule failed: %s" % str(e)[:100]))
+        # a parameter the confirmed version reads and the current version never reads is ignored input
+        try:
+            from . import canon as _canon
+            _ref = Repo(_canon.REFERENCE_DIR)
+            for q in getattr(mod, "ANCHORS", []):
+                if repo.has_func(q) and _ref.has_func(q):
+                    fc, fr = repo.func(q), _ref.func(q)
+                    def _reads(f):
+                        return {x.id for x in ast.walk(f.node) if isinstance(x, ast.Name) and isinstance(x.ctx, ast.Load)}
+                    rc, rr_ = _reads(fc), _reads(fr)
+                    for p_ in fr.params:
+                        if p_ in fc.params and p_ in rr_ and p_ not in rc and p_ not in ("self", "kwargs", "args_", "verbose"):
+                            r = named("PARAM-UNUSED", fc, "every parameter the confirmed version reads is still read",
+                                      "parameter `%s` is accepted but never read any more (the confirmed version reads it %d time(s)): whatever the caller "
+                                      "passes is ignored" % (p_, sum(1 for x in ast.walk(fr.node) if isinstance(x, ast.Name) and x.id == p_ and isinstance(x.ctx, ast.Load))),
+                                      fc.node)
+                            if r.key not in keys:
+                                results.append(r)
+                                keys.add(r.key)
+        except AnalysisError:
+            raise
+        except Exception:
+            pass
         # memory addresses are not content: no memo keyed by data_ptr() / id()
         from .rules import identity_key_rule
         for q in getattr(mod, "ANCHORS", []):
@@ -305,7 +328,7 @@ def run_property(pid, tier="quick", replay=None, repo_root=None, write_evidence=
             equiv_note = "equivalence fallback crashed (%s: %s): verdicts unchanged" % (type(e).__name__, str(e)[:120])
     # spelling-based rules cannot tell a refactoring from a defect once a function has been rewritten: their VIOLATIONs are kept only
     # while every changed function is a first-order edit of its reference version (a deletion, or one replaced statement)
-    sem_rules = set(getattr(mod, "SEMANTIC_RULES", ())) | {"STATE", "R-SLICE0", "KNOB", "NONE-TEST", "SET-ORDER"}
+    sem_rules = set(getattr(mod, "SEMANTIC_RULES", ())) | {"STATE", "R-SLICE0", "KNOB", "NONE-TEST", "SET-ORDER", "PARAM-UNUSED"}
     # every VIOLATION that is neither derived by an engine (semantic=True / SEMANTIC_RULES) nor an explicitly recognised deviation
     # (core.named) comes from comparing spellings and is subject to the rewrite gate
     gate_note = None
